@@ -20,8 +20,16 @@ pub const HELPER_MAGIC: i64 = FUNC_MAGIC_BASE + 0x4e1;
 /// The body (without the final `end`) a history builds to replace `env.helper`: a typed block with a
 /// value-carrying conditional branch, so that every special mode has a site in it.
 pub fn helper_body() -> Vec<Ins> {
+    helper_body_with(HELPER_MAGIC)
+}
+
+/// fingerprint of the program's own last function `helper2` (same computation as `helper`), which a
+/// history may convert into the import `env.helper2` that the simulated host provides
+pub const HELPER2_MAGIC: i64 = FUNC_MAGIC_BASE + 0x4e2;
+
+pub fn helper_body_with(magic: i64) -> Vec<Ins> {
     vec![
-        Ins::I64Const(HELPER_MAGIC),
+        Ins::I64Const(magic),
         Ins::Drop,
         Ins::Block(BT::Val(VT::I32)),
         Ins::LocalGet(0),
@@ -151,6 +159,8 @@ struct Em<'a> {
     rich: bool,
     /// number of enclosing try_tables (an uncaught-exit `throw` is only generated outside of them)
     in_try: u32,
+    /// function index of the program's `helper2`
+    helper2: u32,
     /// functions that may be the target of `ref.func` (declared in an element segment)
     ref_funcs: Vec<u32>,
 }
@@ -188,7 +198,8 @@ impl Em<'_> {
             3 if self.rich && depth < 2 && self.rng.chance(1, 3) => {
                 self.expr32(depth + 1);
                 self.expr32(depth + 1);
-                self.out.push(Ins::Call(F_HELPER));
+                let f = if self.rng.chance(1, 2) { F_HELPER } else { self.helper2 };
+                self.out.push(Ins::Call(f));
             }
             3 => self.out.push(Ins::GlobalGet(0)),
             4 => self.out.push(Ins::I32Const(self.rng.below(100) as i32)),
@@ -934,6 +945,7 @@ pub fn gen_program(rng: &mut Rng, rich: bool) -> (ModuleSpec, ProgInfo) {
             types: &mut types,
             budget: 0,
             in_try: 0,
+            helper2: N_HOST + nf as u32,
             rich,
             ref_funcs: (0..nf as u32).map(|j| N_HOST + j).collect(),
         };
@@ -968,6 +980,13 @@ pub fn gen_program(rng: &mut Rng, rich: bool) -> (ModuleSpec, ProgInfo) {
             kind: ExtKind::Func,
             index: N_HOST + k as u32,
         });
+    }
+    // the program's own copy of the helper: last local function, not exported, no anchors
+    {
+        let mut body = helper_body_with(HELPER2_MAGIC);
+        body.push(Ins::End);
+        m.funcs.push(FuncSpec { ty: t_helper, locals: vec![], body });
+        info.funcs.push(FuncInfo { magic: HELPER2_MAGIC, ..Default::default() });
     }
     let tag_ty = types.intern(&[], &[]);
     m.tags.push(tag_ty);
